@@ -57,6 +57,49 @@ EDITS = {
  'dispatch-let-else': ('src/loop_logic.rs', [('            if let Some(disp) = opt_disp {\n                trace!(source = reg_token.get_id(), "Dispatching events for source");', '            if let Some(disp) = opt_disp.as_ref() {\n                trace!(source = reg_token.get_id(), "Dispatching events for source");')]),
  'bitor-assign-eq': ('src/sources/mod.rs', [('        if *self != rhs {\n            *self = Self::Reregister;\n        }', '        if *self == rhs {\n            return;\n        }\n        *self = Self::Reregister;')]),
  'timer-wheel-insert-local': ('src/sources/timer.rs', []),
+ 'event-iterator-find-map': ('src/loop_logic.rs', [("""        for next in self.inner.by_ref() {
+            if next
+                .token
+                .inner
+                .same_source_as(self.registration_token.inner)
+            {
+                return Some((next.readiness, next.token));
+            }
+        }
+        None""", """        let reg = self.registration_token.inner;
+        self.inner
+            .by_ref()
+            .find(|event| event.token.inner.same_source_as(reg))
+            .map(|event| (event.readiness, event.token))""")]),
+ 'dispatch-idles-drain': ('src/loop_logic.rs', [('        let idles = std::mem::take(&mut *self.handle.inner.idles.borrow_mut());\n        for idle in idles {', '        let mut idles = std::mem::take(&mut *self.handle.inner.idles.borrow_mut());\n        for idle in idles.drain(..) {')]),
+ 'try-new-field-order': ('src/loop_logic.rs', [('                poll: RefCell::new(poll),\n                sources: RefCell::new(SourceList::new()),\n                idles: RefCell::new(Vec::new()),', '                sources: RefCell::new(SourceList::new()),\n                idles: RefCell::new(Vec::new()),\n                poll: RefCell::new(poll),')]),
+ 'insert-source-let': ('src/loop_logic.rs', [('        self.register_dispatcher(dispatcher.clone())\n            .map_err(|error| InsertError {', '        let registered = self.register_dispatcher(dispatcher.clone());\n        registered.map_err(|error| InsertError {')]),
+ 'transient-remove-match': ('src/sources/transient.rs', [("""        if let TransientSourceState::Register(_) = self.state {
+            // A source waiting for its first registration was never registered: there is
+            // nothing to unregister, it can go at once.
+            self.state = TransientSourceState::None;
+            return;
+        }
+        self.state.replace_state(TransientSourceState::Remove);""", """        match self.state {
+            // A source waiting for its first registration was never registered: there is
+            // nothing to unregister, it can go at once.
+            TransientSourceState::Register(_) => self.state = TransientSourceState::None,
+            _ => self.state.replace_state(TransientSourceState::Remove),
+        }""")]),
+ 'transient-reregister-match-result': ('src/sources/transient.rs', [("""                if let Err(e) = new.register(poll, token_factory) {
+                    // Drops the old source; the new one is still waiting for its first registration.
+                    self.state.replace_state(TransientSourceState::Register);
+                    return Err(e);
+                }
+                self.state.replace_state(TransientSourceState::Keep);""", """                match new.register(poll, token_factory) {
+                    Ok(()) => self.state.replace_state(TransientSourceState::Keep),
+                    Err(e) => {
+                        // Drops the old source; the new one is still waiting for its first registration.
+                        self.state.replace_state(TransientSourceState::Register);
+                        return Err(e);
+                    }
+                }""")]),
+ 'get-signal-local': ('src/loop_logic.rs', [('        LoopSignal {\n            signal: self.signals.clone(),\n            notifier: self.handle.inner.poll.borrow().notifier(),\n        }', '        let notifier = self.handle.inner.poll.borrow().notifier();\n        LoopSignal {\n            signal: self.signals.clone(),\n            notifier,\n        }')]),
 }
 
 only = sys.argv[1:]
@@ -80,7 +123,7 @@ for name, (rel, edits) in EDITS.items():
         c = subprocess.run('cargo check --offline -q 2>&1 | tail -3', shell=True, cwd=tmp, capture_output=True, text=True, env=dict(os.environ, CARGO_NET_OFFLINE='true', CARGO_TARGET_DIR=os.path.join(tmp, 'tgt')))
         compiles = 'error' not in c.stdout
         def one(pr):
-            env = dict(os.environ, CALLOOP_REPO=tmp, VERIF_EVIDENCE_DIR=os.path.join(tmp, 'ev'), VERIF_BUILD_DIR=os.path.join(tmp, 'b'), VERIF_REPLAY_DIR=os.path.join(tmp, 'r'), VERIF_NO_SELFTEST='1', VERIF_JOBS='4', VERIF_DIAG='1')
+            env = dict(os.environ, CALLOOP_REPO=tmp, VERIF_EVIDENCE_DIR=os.path.join(tmp, 'ev'), VERIF_BUILD_DIR=os.path.join(tmp, 'b'), VERIF_REPLAY_DIR=os.path.join(tmp, 'r'), VERIF_NO_SELFTEST='1', VERIF_JOBS='4', VERIF_DIAG='1', VERIF_DIAG_KANI='1')
             o = subprocess.run([os.path.join(ROOT, 'check'), pr], capture_output=True, text=True, env=env)
             v = [re.sub(r'replay=\S+ ', '', l)[:260] for l in o.stdout.splitlines() if l.startswith('VIOLATION')]
             u = [l[:200] for l in o.stdout.splitlines() if l.startswith('UNDECIDED') and 'tier=' not in l]
